@@ -9,9 +9,17 @@
 //        a2 = interpolate(from, g, t, g)      output aliases `to`   (g is a copy of to)
 //        sb = satisfiesBounds(r); ef/et = equalStates(r, from/to); sbf/sbt = satisfiesBounds(from/to)
 //        dfr/dft/drt = distance(from, r) / (from, to) / (r, to); ext = getMaximumExtent()
+//        per UNIT component (wrappers and plain compounds incl. SE2/SE3 are descended into; R^n, SO2, SO3,
+//        time, discrete, torus, Mobius, Klein, sphere are units), in state order, judged with the component's
+//        OWN functions (a compound's weighted distance cannot see a zero-weight component):
+//        csb = satisfiesBounds(r_c) | cef/cet = equalStates(r_c, from_c/to_c) | cdfr/cdrt = distance(from_c, r_c)
+//        / (r_c, to_c) | cext = getMaximumExtent() of the component
+//        Before the call with a distinct output every leaf of `out` is filled with an out-of-bounds sentinel
+//        (7.77e77 / 77 / (7,7,7,7) / upper+1000), so a component that interpolate does not write is visible.
 //   interp2 <from> <to> <s> <u>   -> s3 <state> | r <state> | direct <state> | ra <state> | d <d> | sbs3 b | ext <d>
 //        s3 = interpolate(from,to,s); r = interpolate(s3,to,u); direct = interpolate(from,to,s+(1-s)*u);
-//        ra = interpolate(s3',to,u,s3') aliased as StateSpace::sanityChecks does; d = distance(r, direct)
+//        ra = interpolate(s3',to,u,s3') aliased as StateSpace::sanityChecks does; d = distance(r, direct);
+//        cd = per unit component distance(r_c, direct_c), cext as above (s3, r, direct start as sentinels)
 //        (distances of out-of-bounds results are taken after enforceBounds on a copy, flagged `enf 1`)
 // `oob-input` when from or to does not satisfy the bounds (outside the property's quantifier).
 // States are printed as their leaf values (doubles as u64 bit patterns).  No hooks in /repo.
@@ -30,7 +38,7 @@ static std::string b01(bool b)
 // `sb 0`) is first copied and passed through the space's own enforceBounds (+pi -> -pi, a coordinate a
 // few ulps outside a box -> the bound); `enf 1` on the line says that this happened.
 static bool enforced = false;
-static std::string dist(const ob::StateSpacePtr &sp, const ob::State *a, const ob::State *b)
+static std::string dist(const ob::StateSpace *sp, const ob::State *a, const ob::State *b)
 {
     ob::State *ca = nullptr, *cb = nullptr;
     if (!sp->satisfiesBounds(a))
@@ -53,6 +61,69 @@ static std::string dist(const ob::StateSpacePtr &sp, const ob::State *a, const o
     if (cb)
         sp->freeState(cb);
     return out;
+}
+static std::string dist(const ob::StateSpacePtr &sp, const ob::State *a, const ob::State *b)
+{
+    return dist(sp.get(), a, b);
+}
+
+static bool isSpecial(const ob::StateSpace *sp)
+{
+    return dynamic_cast<const ob::TorusStateSpace *>(sp) || dynamic_cast<const ob::MobiusStateSpace *>(sp) ||
+           dynamic_cast<const ob::KleinBottleStateSpace *>(sp) || dynamic_cast<const ob::SphereStateSpace *>(sp);
+}
+
+// visit the unit components of `sp` with the corresponding sub-states of several parallel states
+template <class F>
+static void forUnits(const ob::StateSpace *sp, const std::vector<const ob::State *> &sts, F &&f)
+{
+    if (auto w = dynamic_cast<const ob::WrapperStateSpace *>(sp))
+    {
+        std::vector<const ob::State *> sub;
+        for (auto *s : sts)
+            sub.push_back(s->as<ob::WrapperStateSpace::StateType>()->getState());
+        forUnits(w->getSpace().get(), sub, f);
+        return;
+    }
+    auto c = dynamic_cast<const ob::CompoundStateSpace *>(sp);
+    if (c && !isSpecial(sp))
+    {
+        for (unsigned j = 0; j < c->getSubspaceCount(); ++j)
+        {
+            std::vector<const ob::State *> sub;
+            for (auto *s : sts)
+                sub.push_back(s->as<ob::CompoundState>()->components[j]);
+            forUnits(c->getSubspace(j).get(), sub, f);
+        }
+        return;
+    }
+    f(sp, sts);
+}
+
+// fill every leaf of a state with a distinctive out-of-bounds sentinel
+static void poison(const ob::StateSpace *sp, ob::State *st)
+{
+    if (auto w = dynamic_cast<const ob::WrapperStateSpace *>(sp))
+        poison(w->getSpace().get(), st->as<ob::WrapperStateSpace::StateType>()->getState());
+    else if (auto c = dynamic_cast<const ob::CompoundStateSpace *>(sp))
+        for (unsigned j = 0; j < c->getSubspaceCount(); ++j)
+            poison(c->getSubspace(j).get(), st->as<ob::CompoundState>()->components[j]);
+    else if (auto r = dynamic_cast<const ob::RealVectorStateSpace *>(sp))
+        for (unsigned j = 0; j < r->getDimension(); ++j)
+            st->as<ob::RealVectorStateSpace::StateType>()->values[j] = 7.77e77;
+    else if (dynamic_cast<const ob::SO2StateSpace *>(sp))
+        st->as<ob::SO2StateSpace::StateType>()->value = 77.0;
+    else if (dynamic_cast<const ob::SO3StateSpace *>(sp))
+    {
+        auto *q = st->as<ob::SO3StateSpace::StateType>();
+        q->x = q->y = q->z = q->w = 7.0;
+    }
+    else if (dynamic_cast<const ob::TimeStateSpace *>(sp))
+        st->as<ob::TimeStateSpace::StateType>()->position = 7.77e77;
+    else if (auto d = dynamic_cast<const ob::DiscreteStateSpace *>(sp))
+        st->as<ob::DiscreteStateSpace::StateType>()->value = d->getUpperBound() + 1000;
+    else
+        throw vp::ParseError("unsupported leaf space " + sp->getName());
 }
 
 struct Tmp
@@ -113,8 +184,8 @@ int main()
                 }
                 sp->copyState(f.s, from.s);
                 sp->copyState(g.s, to.s);
-                // poison the distinct output so that a body that forgets to write a field shows up
-                sp->copyState(out.s, to.s);
+                // sentinel in the distinct output: a component that interpolate does not write shows up
+                poison(sp.get(), out.s);
                 enforced = false;
                 sp->interpolate(from.s, to.s, tt, out.s);
                 sp->interpolate(f.s, to.s, tt, f.s);
@@ -126,7 +197,22 @@ int main()
                           << b01(sp->satisfiesBounds(to.s)) << " | dfr " << dist(sp, from.s, out.s)
                           << " | dft " << dist(sp, from.s, to.s) << " | drt "
                           << dist(sp, out.s, to.s) << " | ext " << vp::bits(sp->getMaximumExtent())
-                          << " | enf " << b01(enforced) << "\n";
+                          << " | enf " << b01(enforced);
+                {
+                    std::string csb, cef, cet, cdfr, cdrt, cext;
+                    forUnits(sp.get(), {out.s, from.s, to.s},
+                             [&](const ob::StateSpace *u, const std::vector<const ob::State *> &x) {
+                                 csb += " " + b01(u->satisfiesBounds(x[0]));
+                                 cef += " " + b01(u->equalStates(x[0], x[1]));
+                                 cet += " " + b01(u->equalStates(x[0], x[2]));
+                                 cdfr += " " + dist(u, x[1], x[0]);
+                                 cdrt += " " + dist(u, x[0], x[2]);
+                                 cext += " " + vp::bits(u->getMaximumExtent());
+                             });
+                    std::cout << " | csb" << csb << " | cef" << cef << " | cet" << cet << " | cdfr" << cdfr << " | cdrt"
+                              << cdrt << " | cext" << cext;
+                }
+                std::cout << "\n";
             }
             else if (t[0] == "interp2" && sp)
             {
@@ -143,9 +229,9 @@ int main()
                     std::cout << "oob-input\n";
                     continue;
                 }
-                sp->copyState(s3.s, from.s);
-                sp->copyState(r.s, from.s);
-                sp->copyState(direct.s, from.s);
+                poison(sp.get(), s3.s);
+                poison(sp.get(), r.s);
+                poison(sp.get(), direct.s);
                 enforced = false;
                 sp->interpolate(from.s, to.s, s, s3.s);
                 sp->interpolate(s3.s, to.s, u, r.s);
@@ -156,7 +242,17 @@ int main()
                           << vp::showState(sp, direct.s) << " | ra " << vp::showState(sp, ra.s) << " | d "
                           << dist(sp, r.s, direct.s) << " | sbs3 " << b01(sp->satisfiesBounds(s3.s)) << " | sbr "
                           << b01(sp->satisfiesBounds(r.s)) << " | sbd " << b01(sp->satisfiesBounds(direct.s))
-                          << " | ext " << vp::bits(sp->getMaximumExtent()) << " | enf " << b01(enforced) << "\n";
+                          << " | ext " << vp::bits(sp->getMaximumExtent()) << " | enf " << b01(enforced);
+                {
+                    std::string cd, cext;
+                    forUnits(sp.get(), {r.s, direct.s},
+                             [&](const ob::StateSpace *u, const std::vector<const ob::State *> &x) {
+                                 cd += " " + dist(u, x[0], x[1]);
+                                 cext += " " + vp::bits(u->getMaximumExtent());
+                             });
+                    std::cout << " | cd" << cd << " | cext" << cext;
+                }
+                std::cout << "\n";
             }
             else
                 std::cout << "bad-op\n";
